@@ -3,7 +3,7 @@
 From Coq Require Import List NArith ZArith Bool String.
 From ApiFu Require Import Base.Sexp.
 From ApiFu Require Syn.Ast Vld.Ast Val.Values ExeA.ArgData ExeA.ArgArgs ExeA.ArgModel ExeA.ArgSpec ExeA.ArgHyps.
-From ApiFu Require Vld.ValidatorModel Pipe.CostCompose.
+From ApiFu Require Vld.ValidatorModel Pipe.CostCompose Pipe.SubscribeCompose Pipe.InvariantProofs.
 From ApiFu Require Import Pipe.PipelineModel Pipe.PipelineProofs Pipe.Convert Pipe.Compose Pipe.SchemaAgree Pipe.ComposeProofs Pipe.ComposeCheck.
 Import ListNotations.
 Open Scope string_scope.
@@ -154,6 +154,34 @@ Proof. vm_compute. reflexivity. Qed.
 Example ex_cost_typename_free : cost_ex "{ __typename i }" 1 (-1) = Pipe.CostCompose.CAccepted 1.
 Proof. vm_compute. reflexivity. Qed.
 Example ex_cost_syntax : cost_ex "{ i o { i }" 1 (-1) = Pipe.CostCompose.CSyntax.
+Proof. vm_compute. reflexivity. Qed.
+
+(** ** graphql.Subscribe inside the composition: the same schema with Query also as the subscription root *)
+Definition ex_VS_sub : Vld.Ast.schema :=
+  {| Vld.Ast.s_types := Vld.Ast.s_types ex_VS; Vld.Ast.s_query := n "Query"; Vld.Ast.s_mutation := None;
+     Vld.Ast.s_subscription := Some (n "Query"); Vld.Ast.s_directives := Vld.Ast.s_directives ex_VS;
+     Vld.Ast.s_meta := []; Vld.Ast.s_impls := [] |}.
+Definition ex_ES_sub : ExeA.ArgData.schema :=
+  {| ExeA.ArgData.types := ExeA.ArgData.types ex_ES; ExeA.ArgData.query := n "Query"; ExeA.ArgData.mutation := None;
+     ExeA.ArgData.subscription := Some (n "Query");
+     ExeA.ArgData.s_inputs := ExeA.ArgData.s_inputs ex_ES; ExeA.ArgData.s_dt := ExeA.ArgData.s_dt ex_ES;
+     ExeA.ArgData.s_argdefs := ExeA.ArgData.s_argdefs ex_ES |}.
+Definition sub_ex (q : string) (raw : list (ExeA.ArgData.name * Val.Values.jval)) : Pipe.SubscribeCompose.sub_result :=
+  Pipe.SubscribeCompose.subscribe_model ex_VS_sub [] ex_ES_sub (n q) [] raw ex_W.
+Example ex_sub_source : sub_ex "subscription { f(k: 2) }" [] = Pipe.SubscribeCompose.SubSource (int_ 20).
+Proof. vm_compute. reflexivity. Qed.
+Example ex_sub_no_outcome : sub_ex "subscription { f(k: 3) }" [] = Pipe.SubscribeCompose.SubError [ExeA.ArgData.PKey (n "f")].
+Proof. vm_compute. reflexivity. Qed.
+Example ex_sub_empty_set : sub_ex "subscription { i @skip(if: true) }" [] = Pipe.SubscribeCompose.SubError [].
+Proof. vm_compute. reflexivity. Qed.
+Example ex_sub_not_a_subscription : sub_ex "{ i }" [] = Pipe.SubscribeCompose.SubError [].
+Proof. vm_compute. reflexivity. Qed.
+Example ex_sub_invalid : exists e es, sub_ex "subscription { i nn }" [] = Pipe.SubscribeCompose.SubInvalid e es.
+Proof. eexists. eexists. vm_compute. reflexivity. Qed.
+(** one event of the same subscription, through Execute *)
+Example ex_sub_event :
+  pipeline_model ex_VS_sub [] ex_ES_sub (n "subscription { f(k: 2) }") [] [] ex_W
+  = PExecuted (Some (ExeA.ArgData.JObj [ (n "f", ExeA.ArgData.JInt 20) ])) [].
 Proof. vm_compute. reflexivity. Qed.
 
 (** ** round 1: the glue over stage verdicts *)
